@@ -28,6 +28,7 @@ EXPLANATION = (
     "image of the probability operations (times a*b <-> a+b, normalize a/z <-> a-z, one/zero constants "
     "log(1)/log(0), result = exp, value = log on the in-range branch, negate = log1p(-exp(a))). "
     "Associativity/commutativity/distributivity on floats and numerical tolerance are value-level and not decided."
+    " Added after seed round 7: S7 SemiringSymbolic.plus / times return an operand alone only next to the identity of the operation."
 )
 ASSUMPTIONS = ["semiring classes are recognised as subclasses of problog.evaluator.Semiring through the resolved class hierarchy"]
 
